@@ -1,4 +1,6 @@
 (* entry points of the extracted model, by name *)
 let table : (string * (Model.z list -> Model.z list)) list = [
   ("c07", Model.run_c07);
+  ("c08", Model.run_c08);
+  ("c09", Model.run_c09);
 ]
